@@ -118,6 +118,35 @@ fn gen_compound(r: &mut Rng) -> String {
     if r.chance(1, 4) { let c = spot(r); format!("{} {} {} + {}", a, op, b, c) } else { format!("{} {} {}", a, op, b) }
 }
 
+/// A two-spot line aimed at a constellation the seeded decisions rarely produce by chance: two live
+/// rules of one shape, the earlier one declines the first spot (the later one accepts it) and is the
+/// only one to accept the second spot.
+fn aimed_compound(r: &mut Rng, live: &[RuleSpec], salt: u64) -> Option<String> {
+    let numeric = [0usize, 3, 6, 7];
+    let mut shapes: Vec<usize> = numeric.iter().cloned().filter(|k| live.iter().filter(|s| shape_of(s) == Some(*k)).count() >= 2).collect();
+    if shapes.is_empty() { return None; }
+    let k = *r.pick(&mut shapes);
+    let rules: Vec<&RuleSpec> = live.iter().filter(|s| shape_of(s) == Some(k)).collect();
+    let spot = |r: &mut Rng| -> String { match k { 0 => if r.chance(1, 2) { format!("zork {}", r.below(60)) } else { format!("{} zork", r.below(60)) }, 3 => format!("{} frob {}", r.below(60), 1 + r.below(60)), 6 => format!("{} wug {}", r.below(60), 1 + r.below(60)), _ => format!("çörk {}", r.below(60)) } };
+    let verdicts = |sp: &str| -> Option<Vec<bool>> {
+        // per rule: does it accept some binding of this spot?
+        let f = expected_fields_plain(k, sp)?;
+        let bindings = if k == 6 { vec![f.clone(), vec![(f[0].0.clone(), f[1].1.clone()), (f[1].0.clone(), f[0].1.clone())]] } else { vec![f] };
+        let digests: Vec<u64> = bindings.iter().map(|b| { let mut b = b.clone(); b.sort_by(|x, y| x.0.cmp(&y.0)); digest_vals(&b) }).collect();
+        Some(rules.iter().map(|s| digests.iter().any(|d| crate::rules::decide(s, salt, *d) == Decision::Accept)).collect())
+    };
+    for _ in 0..40 {
+        let a = spot(r);
+        let b = spot(r);
+        let (va, vb) = match (verdicts(&a), verdicts(&b)) { (Some(x), Some(y)) => (x, y), _ => continue };
+        // first spot: the first rule declines, exactly one later rule accepts; second spot: only the first rule accepts
+        if !va[0] && va.iter().filter(|x| **x).count() == 1 && vb[0] && vb.iter().filter(|x| **x).count() == 1 {
+            return Some(format!("{} + {}", a, b));
+        }
+    }
+    None
+}
+
 const FAMILIES: &[&str] = &["famx", "famy", "famz"];
 
 fn unit_name(fam: &str, idx: usize) -> String {
@@ -219,6 +248,10 @@ impl Check for C18 {
 
     fn generate(&self, seed: u64, _tier: &str, env: &Env) -> Trace {
         let mut r = Rng::new(seed);
+        // the salt of the callback decisions is drawn first, so that the generator can aim lines at
+        // particular accept/decline constellations
+        let salt = r.next();
+        let mut live_en: Vec<RuleSpec> = Vec::new();
         let rated: Vec<String> = env.data.rates.keys().cloned().collect();
         let mut t = base_instant(&mut r, &env.host_rule);
         let mut events = Vec::new();
@@ -255,9 +288,16 @@ impl Check for C18 {
                         rule_id += 1;
                         let rule = gen_rule(&mut r, rule_id, &rated);
                         if let Some(k) = shape_of(&rule) { shapes_seen.push(k); }
-                        AdminOp::AddRule { lang: match r.below(12) { 0 => "xx".into(), 1 | 2 => "tr".into(), _ => "en".into() }, rule }
+                        let lang: String = match r.below(12) { 0 => "xx".into(), 1 | 2 => "tr".into(), _ => "en".into() };
+                        if lang == "en" { live_en.push(rule.clone()); }
+                        AdminOp::AddRule { lang, rule }
                     }
-                    4 | 5 | 6 => AdminOp::DeleteRule { lang: match r.below(12) { 0 => "xx".into(), 1 => "tr".into(), _ => "en".into() }, name: if r.chance(1, 8) { "nosuchrule".into() } else { format!("rule{}", r.below(5)) } },
+                    4 | 5 | 6 => {
+                        let lang: String = match r.below(12) { 0 => "xx".into(), 1 => "tr".into(), _ => "en".into() };
+                        let name = if r.chance(1, 8) { "nosuchrule".to_string() } else { format!("rule{}", r.below(5)) };
+                        if lang == "en" { if let Some(p) = live_en.iter().position(|x| x.name == name) { live_en.remove(p); } }
+                        AdminOp::DeleteRule { lang, name }
+                    }
                     7 | 10 => { let name = if r.chance(1, 10) { "memory".to_string() } else { r.pick(FAMILIES).to_string() }; if !fams_seen.iter().any(|(f, _)| *f == name) { fams_seen.push((name.clone(), vec![])); } AdminOp::AddType { name } }
                     _ => {
                         let fam = if r.chance(1, 10) { "nofamily".to_string() } else if !fams_seen.is_empty() && r.chance(2, 3) { r.pick(&fams_seen).0.clone() } else { r.pick(FAMILIES).to_string() };
@@ -282,8 +322,8 @@ impl Check for C18 {
                         let fam = *r.pick(FAMILIES);
                         format!("{} {} {} {}", 3600 * (1 + r.below(50)), unit_name(fam, r.usize(5)), r.pick(&["to", "in", "as", "into"]), unit_name(fam, r.usize(5)))
                     }
-                } else if r.chance(1, 5) {
-                    gen_compound(&mut r)
+                } else if r.chance(1, 4) {
+                    match aimed_compound(&mut r, &live_en, salt) { Some(l) if lang == "en" => l, _ => gen_compound(&mut r) }
                 } else {
                     let k = if !shapes_seen.is_empty() && r.chance(2, 3) { *r.pick(&shapes_seen) } else { r.usize(SHAPES.len()) };
                     gen_probe(&mut r, k).0
@@ -296,7 +336,7 @@ impl Check for C18 {
         }
         t = advance(&mut r, t);
         events.push(Event { actor: 1, op: Op::Checkpoint { probes: gen_probe_set(&mut r) }, clock: ClockScript::Frozen { t } });
-        Trace { check: "C18".into(), seed, host_tz: env.host_tz.clone(), salt: r.next(), mode: "registration-history".into(), events }
+        Trace { check: "C18".into(), seed, host_tz: env.host_tz.clone(), salt, mode: "registration-history".into(), events }
     }
 
     fn execute(&self, trace: &Trace, env: &Env) -> RunReport {
@@ -580,7 +620,9 @@ fn parse_conv(line: &str) -> Option<(f64, String, usize, Target)> {
 }
 
 /// the fields a rule of shape k must receive for this line (None = the line does not match the shape)
-fn expected_fields(k: usize, line: &str, _l: &World) -> Option<Vec<(String, Val)>> {
+fn expected_fields(k: usize, line: &str, _l: &World) -> Option<Vec<(String, Val)>> { expected_fields_plain(k, line) }
+
+fn expected_fields_plain(k: usize, line: &str) -> Option<Vec<(String, Val)>> {
     let words: Vec<&str> = line.split(' ').collect();
     let num = |s: &str| -> Option<f64> { if s.chars().all(|c| c.is_ascii_digit()) && !s.is_empty() { s.parse().ok() } else { None } };
     let n = |v: f64| Val::Num { v: F(v), ty: "Decimal".into() };
